@@ -616,6 +616,17 @@ def run_c14(ctx):
         if res.startswith('ERROR'):
             raise RuntimeError(res)
         go = m['go']
+        if kind == 'x':
+            # CrossProduct: the faithful model (int64 expression wrapped, then float64) must agree bit for bit;
+            # within the coordinate domain (no wrap) its sign must be the sign of the exact cross product
+            model = res.strip()
+            if str(go) != model:
+                mismatches.append({'case': m, 'model': model})
+            p1, p2, p3 = m['pts']
+            ex = cross3(p1, p2, p3)
+            if max(abs(c) for p in m['pts'] for c in p) <= 2 ** 29 and (int(go) > 0) - (int(go) < 0) != (ex > 0) - (ex < 0):
+                viol.append({'key': fw.input_key(m['pts']), 'kind': 'cross-product-sign', 'text': 'CrossProduct%s = %s but the exact cross product is %d' % (m['pts'], go, ex), 'detail': {'corpus_entry': m['pts']}})
+            continue
         if kind in ('t', 'u', 'p', 'c'):
             model = res.strip()
             if str(go) != model:
